@@ -91,7 +91,7 @@ def tree_engine(mode, tags, kinds, nq, nt):
             "classify": tree_cls(tags, kinds), "nontrivial": tree_nontrivial, "resets": ["scenario"]}
 
 
-CTRL_ACTIONS = ("scenario", "emptyrv", "stalelist", "overflow", "srv", "cstart", "advance", "inject", "watch-errors", "watch-block", "burst-begin", "burst-end",
+CTRL_ACTIONS = ("scenario", "emptyrv", "stalelist", "overflow", "srv", "cstart", "advance", "inject", "watch-errors", "watch-block", "cancel-lag", "burst-begin", "burst-end",
                 "settle", "closeroot", "cancel", "end")
 
 
@@ -345,7 +345,7 @@ PROPS = {
             {"go": "cachediff", "driver": "cache-events", "classify": lambda i, a: "reject" if a.startswith("reject get") else "ignore",
              "nontrivial": has_events, "resets": ["new"]},
             # the caches of filtered nodes are read while the node is refiltered: never a half-applied Refilter
-            tree_engine("step", ("C15",), (), 300, 5000),
+            tree_engine("c15", ("C15",), (), 400, 6000),
         ],
         "rule": "lin engine: one writer moves the real cache through distinguishable complete states (every object of state k carries version k; "
                 "k%3+2 objects) by sync/refilter, 1-6 (thorough 1-12) reader goroutines call List()/Get() concurrently and scribble over "
